@@ -179,15 +179,17 @@ def validate(chk, results):
 
 
 def model_job(arg):
-    ns, nch, caps, saved, fails, mainkills = arg
+    ns, nch, caps, saved, fails, mainkills = arg[:6]
+    mode = arg[6] if len(arg) > 6 else "full"        # full: exhaustive + liveness; safety: exhaustive, invariants only; simulate: random behaviours
     mc = (f"---- MODULE MC ----\nEXTENDS Pipeline\nFailDef == {V.to_tla(set(tuple(f) for f in fails))}\nSavedDef == {V.to_tla(set(saved))}\n"
           f"CapDef == {V.to_tla(set(caps))}\n====\n")
     cfg = (f"SPECIFICATION Spec\nCONSTANTS NS = {ns} NChunks = {nch} MainKills = {V.to_tla(mainkills)} LazySet = {{TRUE, FALSE}}\n"
            "CONSTANT FailSet <- FailDef\nCONSTANT Saved <- SavedDef\nCONSTANT CapSet <- CapDef\n"
            "INVARIANT NoDeadlock\nINVARIANT EveryoneStops\nINVARIANT CallerOutcome\n"
-           "INVARIANT EagerCap\nPROPERTY Terminates\nCHECK_DEADLOCK FALSE\n")
+           "INVARIANT EagerCap\n" + ("PROPERTY Terminates\n" if mode == "full" else "") + "CHECK_DEADLOCK FALSE\n")
     d = V.stage_spec(["Pipeline"], {"MC.tla": mc, "MC.cfg": cfg})
-    r = V.run_tlc(d, "MC", "MC.cfg", workers=4, timeout=3000, heap="3g")
+    args = ["-simulate", "num=30000", "-depth", "300"] if mode == "simulate" else []
+    r = V.run_tlc(d, "MC", "MC.cfg", workers=4, timeout=3000, heap="3g", args=args)
     return dict(arg=arg, generated=r.generated, distinct=r.distinct, depth=r.depth, ok=r.ok, violated=r.violated or ("deadlock" if r.deadlock else None),
                 wall=r.wall, out=None if (r.ok or r.violated or r.deadlock) else r.out[-1500:])
 
@@ -205,12 +207,22 @@ def model_check(chk):
     position, eager and lazy, every capacity of the tier (one TLC run per (stages, chunks, saved set))."""
     quick = chk.tier == "quick"
     work = []
-    for ns, nch in ((2, 2),) if quick else ((2, 2), (3, 2), (3, 3)):
-        saved_opts = [(), tuple(range(1, ns + 1))] if quick else [(), (1,), (ns,), tuple(range(1, ns + 1))]
-        for saved in saved_opts:
-            work.append((ns, nch, (1, 2) if quick else (1, 2, 3), saved, fail_positions(ns, nch, saved), True))
+    if quick:
+        for saved in [(), (1, 2)]:
+            work.append((2, 2, (1, 2), saved, fail_positions(2, 2, saved), True, "full"))
+    else:
+        for nch in (2, 3):
+            for saved in [(), (1,), (2,), (1, 2)]:
+                work.append((2, nch, (1, 2, 3), saved, fail_positions(2, nch, saved), True, "full"))
+        # three stages: exhaustive for safety (no liveness), failure positions in groups to bound each run
+        for saved in [(), (2,), (1, 2, 3)]:
+            fp = fail_positions(3, 2, saved)
+            for k in range(0, len(fp), 4):
+                work.append((3, 2, (1, 2), saved, fp[k:k + 4], True, "safety"))
+        # three stages x three chunks: random behaviours
+        work.append((3, 3, (1, 2, 3), (1, 2, 3), fail_positions(3, 3, (1, 2, 3)), True, "simulate"))
     # vacuity guard: without the main thread's kill-all an eager pipeline must be able to hang
-    work.append((2, 4, (1,), (1, 2), [("saver", 2, 0)], False))
+    work.append((2, 4, (1,), (1, 2), [("saver", 2, 0)], False, "full"))
     res = V.pmap(model_job, work)
     for r in res:
         if r["out"]:
@@ -218,12 +230,12 @@ def model_check(chk):
         chk.states += r["distinct"]
         chk.transitions += r["generated"]
         a = r["arg"]
-        chk.tlc_runs.append(dict(what=f"Pipeline.tla NS={a[0]} NChunks={a[1]} caps={a[2]} saved={a[3]} failure positions={len(a[4])} MainKills={a[5]}",
+        chk.tlc_runs.append(dict(what=f"Pipeline.tla NS={a[0]} NChunks={a[1]} caps={a[2]} saved={a[3]} failure positions={len(a[4])} MainKills={a[5]} mode={a[6]}",
                                  generated=r["generated"], distinct=r["distinct"], depth=r["depth"],
                                  ok=r["ok"], violated=r["violated"], wall_s=round(r["wall"], 1)))
-        if a[-1] and r["violated"]:
+        if a[5] and r["violated"]:
             chk.extra.setdefault("design_violations", []).append(dict(config=[a[0], a[1], a[2], a[3]], violated=r["violated"]))
-        if not a[-1] and not r["violated"]:
+        if not a[5] and not r["violated"]:
             raise V.MachineryError("Pipeline.tla without the main thread's kill-all still satisfies every property: no teeth")
     chk.extra["pipeline_model_configurations"] = sum(len(w[4]) * 2 * len(w[2]) for w in work)
 
